@@ -60,6 +60,8 @@ inline int64_t snum(const std::string& t) { return strtoll(t.c_str(), 0, 10); }
 
 // exception -> code shared with coq/Base/Prelude.v
 inline int exn_code(const std::exception& e) {
+    if (dynamic_cast<const Tins::dns_decompression_pointer_loops*>(&e)) return 7;
+    if (dynamic_cast<const Tins::dns_decompression_pointer_out_of_bounds*>(&e)) return 8;
     if (dynamic_cast<const Tins::malformed_packet*>(&e)) return 1;
     if (dynamic_cast<const Tins::serialization_error*>(&e)) return 2;
     if (dynamic_cast<const Tins::option_not_found*>(&e)) return 3;
@@ -163,6 +165,12 @@ inline int run_all(const std::function<void(const Script&)>& run) {
             for (size_t c = 0; c < kind.size(); ++c) if (kind[c] == '\n') kind[c] = ' ';
             printf("!! crash %s\n", kind.c_str());
             if (getenv("VERIF_SHOW_STDERR")) fprintf(stderr, "%s\n", se.c_str());
+        }
+        else if (se.find("runtime error: load of value") != std::string::npos) {
+            // recoverable UBSan report (out-of-range enum load): execution continued; noted, not a crash
+            size_t p = se.find("runtime error: ");
+            std::string l = se.substr(p + 15, se.find('\n', p) - (p + 15));
+            printf("!~ ubsan-recovered %s\n", l.c_str());
         }
         fflush(stdout);
     }
